@@ -5,6 +5,8 @@ import (
 	"go/ast"
 	"go/types"
 
+	"golang.org/x/tools/go/ssa"
+
 	"verif/sa/internal/core"
 	"verif/sa/internal/flow"
 )
@@ -46,6 +48,14 @@ func findLoaders(p *core.Program, ix *funcIndex) *loaderInfo {
 		return li
 	}
 	isReader := map[ast.Node]bool{}
+	selfDecoders := map[*ssa.Function]bool{}
+	if _, decs := psStreamDecoders(p, li.ps); true {
+		for _, d := range decs {
+			if d.judged {
+				selfDecoders[d.fn] = true
+			}
+		}
+	}
 	for _, u := range ix.all {
 		fd := u.Node.(*ast.FuncDecl)
 		obj := u.Pkg.TypesInfo.Defs[fd.Name].(*types.Func)
@@ -72,6 +82,12 @@ func findLoaders(p *core.Program, ix *funcIndex) *loaderInfo {
 		reaches := false
 		for _, c := range ix.closure([]flow.FuncUnit{u}) {
 			if isReader[c.Node] {
+				reaches = true
+			}
+		}
+		// … or that decodes a stream into the system it returns by itself (a second loader next to the reader method)
+		if !reaches {
+			if fn := p.SSA.FuncValue(obj); fn != nil && selfDecoders[fn] {
 				reaches = true
 			}
 		}
@@ -115,6 +131,7 @@ func checkC15(p *core.Program, r *core.Report) {
 	r.Rule("O15.4", "the load chain terminates with an error on a short file: a pipe's write end is closed on every path; a deferred function does not call through a field of the system that is still unset on early error returns")
 	r.Rule("O15.5", "no integer division in the load chain whose divisor can be zero (empty file ⇒ panic)")
 	r.Rule("O15.7", "a section reader of the load chain performs the same reads before every success return (no early success under a flag)")
+	r.Rule("O15.8", "every stream decoder of the proving system that non-decoder code enters has stored every field the writers write before any return that may be a success (a keys-only loader accepts files cut in the sections it skips)")
 	r.Rule("O15.6", "the load chain reads no package-level variable that non-initialiser code writes (a reused buffer completes a truncated file with the tail of an earlier load)")
 	r.Rule("O15.3", "callers of a loader do not use the returned system before the error is ruled out and return the error")
 	r.Trusted = append(r.Trusted, "go/types, go/cfg construction", "gnark section decoders report truncation as an error", "io.ReadFull returns an error on short reads")
@@ -169,6 +186,8 @@ func checkC15(p *core.Program, r *core.Report) {
 	checkLoadChainState(p, r, li.chain)
 	// O15.7: no success path that reads fewer sections than another
 	checkReaderCompleteness(p, r, li.chain)
+	// O15.8: every decoder that stands for "the file was read" reads every section
+	checkDecoderCoverage(p, r, li.ps)
 	// O15.3 callers
 	inChain := map[ast.Node]bool{}
 	for _, u := range li.chain {
